@@ -44,6 +44,9 @@ def configs(tier):
     for kind in ("positive", "complex", "mixed"):
         out.append({"rbm": "sample", "kind": kind, "nv": 2, "nh": 2, "na": 1})
     # the same obligations on objects reached as copies of other objects (copy.deepcopy / pickle round trip)
+    for kind in ("positive", "mixed"):
+        out.append({"rbm": "sample", "kind": kind, "nv": 2, "nh": 2, "na": 1, "grad": "off"})       # the caller samples under torch.no_grad()
+    out.append({"rbm": "binary", "nv": 2, "nh": 1, "grad": "off"})
     out.append({"rbm": "binary", "nv": 2, "nh": 1, "via": "deepcopy"})
     out.append({"rbm": "purification", "nv": 1, "nh": 1, "na": 1, "via": "deepcopy"})
     out.append({"rbm": "purification", "nv": 2, "nh": 1, "na": 2, "via": "pickle"})
